@@ -79,16 +79,28 @@ func verifC01Output(kind int) *types.TxOutput {
 	return nil
 }
 
+// asset and amount carried by an input, read from the typed input itself (not
+// through TxInput.Amount/AssetID, which TxData.Fee uses); false for a coinbase
+func verifC01InValue(in *types.TxInput) (bc.AssetID, uint64, bool) {
+	switch inp := in.TypedInput.(type) {
+	case *types.SpendInput:
+		return *inp.AssetId, inp.Amount, true
+	case *types.VetoInput:
+		return *inp.AssetId, inp.Amount, true
+	case *types.IssuanceInput:
+		return inp.AssetID(), inp.Amount, true
+	}
+	return bc.AssetID{}, 0, false
+}
+
 // 128-bit total of the amounts of asset a among the value-carrying inputs
 // (spend, issuance, veto) and among the outputs
 func verifC01Totals(td *types.TxData, a bc.AssetID) (inHi, inLo, outHi, outLo uint64) {
 	for _, in := range td.Inputs {
-		if in.InputType() == types.CoinbaseInputType {
-			continue
-		}
-		if in.AssetID() == a {
+		asset, amount, ok := verifC01InValue(in)
+		if ok && asset == a {
 			var c uint64
-			inLo, c = bits.Add64(inLo, in.Amount(), 0)
+			inLo, c = bits.Add64(inLo, amount, 0)
 			inHi += c
 		}
 	}
@@ -143,8 +155,8 @@ func VerifC01Shape(i0 int, i1 int, o0 int, o1 int) {
 	// conservation, asset class by asset class: every asset occurring anywhere
 	assets := []bc.AssetID{*consensus.BTMAssetID}
 	for _, in := range td.Inputs {
-		if in.InputType() != types.CoinbaseInputType {
-			assets = append(assets, in.AssetID())
+		if asset, _, ok := verifC01InValue(in); ok {
+			assets = append(assets, asset)
 		}
 	}
 	for _, out := range td.Outputs {
